@@ -43,13 +43,18 @@ def check_impl(rules, skip=False):
     e = policy.Enforcer(impl.new_conf(), use_conf=False)
     e.skip_undefined_check = skip
     impl.install_rules(e, rules)
-    ok = e.check_rules()
+    try:
+        ok = e.check_rules()
+    except Exception as ex:      # noqa: validation itself may not fail
+        return 'raise:' + type(ex).__name__, [], e
     names = []
     try:
         e.check_rules(raise_on_violation=True)
     except policy.InvalidDefinitionError as ex:
         m = re.search(r'Policies (\[.*\]) are not well defined', str(ex))
         names = ast.literal_eval(m.group(1)) if m else ['?']
+    except Exception as ex:      # noqa
+        return 'raise:' + type(ex).__name__, [], e
     return ok, names, e
 
 
@@ -156,12 +161,16 @@ def _grown(ctx, rep):
         try:
             w.write((None, None), file_part, 2, record=False)
             e = w.new_enforcer(defaults=[])
-            e.load_rules()
-            first = e.check_rules()
-            for r in reg_part:
-                e.register_default(policy.RuleDefault(r['name'], r['check_str']))
-            e.load_rules()
-            got = e.check_rules()
+            first = None
+            try:
+                e.load_rules()
+                first = e.check_rules()
+                for r in reg_part:
+                    e.register_default(policy.RuleDefault(r['name'], r['check_str']))
+                e.load_rules()
+                got = e.check_rules()
+            except Exception as ex:     # noqa: loading and validating may report, never fail
+                got = 'raise:' + type(ex).__name__
             und, cyc = analyse(g)
             want = not und and not cyc
             if got != want:
